@@ -614,6 +614,8 @@ class BitStream(ConstBitStream, bitstring.BitArray):
         bs = Bits._create_from_bitstype(bs)
         if len(bs) == 0:
             return
+        if bs is self:
+            bs = self._copy()
         if pos is None:
             pos = self._pos
         if pos < 0:
